@@ -266,13 +266,28 @@ PROPS = {
         'level_note': 'Trusted: rustc front end + MIR, the extractor.',
         'technique': 'sibling cross-check of look-up profiles + ordering rules over resolved MIR (rustc_private driver)',
     },
+    'C19': {
+        'module': 'c19',
+        'explanation': 'Only the structural part: numbers are printed through exactly std\'s Display for f64 with the plain `{}` '
+                       'template (compared with a sibling arm that is known to be plain), the single hand-written case is -0 under '
+                       'its two-part guard, every value-to-text path goes through that Display impl, numeric text is read with '
+                       'str::parse::<f64> on the whole token/string, and the number lexer consumes a `.` only on the edge where a digit '
+                       'follows. That the std formatter/parser pair round-trips every double is std\'s documented guarantee and is the '
+                       'stated trusted base, not something decided here.',
+        'assumptions': COMMON_ASSUME + ['Rust std: `Display for f64` prints the shortest decimal that parses back to the same value, integral '
+                                        'values without a fraction, "NaN" and "inf"; `str::parse::<f64>` is correctly rounded and accepts those'],
+        'not_decided': ['the round trip itself for all doubles (delegated to std\'s guarantee)', 'which double a literal denotes beyond "what std parses"'],
+        'level_text': 'Decides D1-D3: the interpreter uses exactly the std formatter/parser pair and guards its own special cases; the numeric '
+                      'theorem is std\'s.',
+        'design_ref': 'DESIGN.md section 3a.7',
+        'level_note': 'Trusted: rustc front end + MIR, the extractor, std\'s documented float formatting/parsing guarantees.',
+        'technique': 'sibling-template agreement + dominator rules over resolved MIR (rustc_private driver)',
+    },
 }
 
 NOT_APPLICABLE = {
     'C18': 'iteration order / exactly-once visiting / adapter results are run-time values produced by cursors; the adapters are '
            'Yarel source (core.yl) that a Rust-level static analysis cannot see; the only structural fragment is already pinned by tests',
-    'C19': 'a statement about all doubles and the platform formatter/parser (f64 Display / str::parse); nothing in the shape of the '
-           'code bounds it -- needs execution or a numerical proof, outside static analysis of this repository',
 }
 PENDING = []
 for _p in PENDING:
